@@ -408,9 +408,17 @@ class LtlAstParserVisitor(LtlParserVisitor):
         return
 
     def reads(self, node, var_name):
-        if isinstance(node, Variable) and node.var == var_name:
-            return True
-        return any(self.reads(child, var_name) for child in node.children)
+        # (every node once: sub-formulas are shared, and some nodes list a child twice)
+        todo, seen = [node], set()
+        while todo:
+            node = todo.pop()
+            if id(node) in seen:
+                continue
+            seen.add(id(node))
+            if isinstance(node, Variable) and node.var == var_name:
+                return True
+            todo.extend(node.children)
+        return False
 
     def visitSpecification_file(self, ctx):
         self.visit(ctx.specification())
